@@ -56,7 +56,7 @@ struct Counters
 {
 	uint64_t plans, ops, dispatches, queuedDispatches, filterCalls, filterBlocked, filterModified, filtersRemovedFromFilter, listenerCalls, mixCalls, mixBlocked,
 		stoppedByPolicy, conditionTrue, conditionFalse, adaptedCalls, sharedAdaptedCalls, copies, faultRuns, faultsInjected, faultsByKind[F_KINDS], opsFailedByFault;
-	uint64_t perVariant[V_COUNT];
+	uint64_t perVariant[V_COUNT + 1];
 };
 extern Counters counters;
 
@@ -110,7 +110,7 @@ struct CfgDisp
 {
 	typedef eventpp::EventDispatcher<int, void (int, Payload), Pol0> D;
 	typedef D::Handle Handle; typedef D::FilterHandle FHandle;
-	enum { queue = 0, mixes = 0 };
+	enum { queue = 0, mixes = 0, conv = 0 };
 	static FHandle addFilter(D & d, const FilterFn & f) { return d.appendFilter(f); }
 	static bool removeFilter(D & d, const FHandle & h) { return d.removeFilter(h); }
 	static Handle addListener(D & d, int k, int how, const ListenerFn & f) { return how ? d.prependListener(k, f) : d.appendListener(k, f); }
@@ -121,7 +121,7 @@ struct CfgDispMix
 {
 	typedef eventpp::EventDispatcher<int, void (int, Payload), Pol1> D;
 	typedef D::Handle Handle; typedef D::FilterHandle FHandle;
-	enum { queue = 0, mixes = 1 };
+	enum { queue = 0, mixes = 1, conv = 0 };
 	static FHandle addFilter(D & d, const FilterFn & f) { return d.appendFilter(f); }
 	static bool removeFilter(D & d, const FHandle & h) { return d.removeFilter(h); }
 	static Handle addListener(D & d, int k, int how, const ListenerFn & f) { return how ? d.prependListener(k, f) : d.appendListener(k, f); }
@@ -132,7 +132,7 @@ struct CfgQueue
 {
 	typedef eventpp::EventQueue<int, void (int, Payload), Pol0> D;
 	typedef D::Handle Handle; typedef D::FilterHandle FHandle;
-	enum { queue = 1, mixes = 0 };
+	enum { queue = 1, mixes = 0, conv = 0 };
 	static FHandle addFilter(D & d, const FilterFn & f) { return d.appendFilter(f); }
 	static bool removeFilter(D & d, const FHandle & h) { return d.removeFilter(h); }
 	static Handle addListener(D & d, int k, int how, const ListenerFn & f) { return how ? d.prependListener(k, f) : d.appendListener(k, f); }
@@ -148,12 +148,42 @@ struct CfgHeter
 {
 	typedef eventpp::HeterEventDispatcher<int, eventpp::HeterTuple<void (int, Payload), void ()>, Pol3> D;
 	typedef D::Handle Handle; typedef D::FilterHandle FHandle;
-	enum { queue = 0, mixes = 0 };
+	enum { queue = 0, mixes = 0, conv = 0 };
 	static FHandle addFilter(D & d, const FilterFn & f) { return d.appendFilter(f); }
 	static bool removeFilter(D & d, const FHandle & h) { return d.removeFilter(h); }
 	static Handle addListener(D & d, int k, int how, const ListenerFn & f) { return how ? d.prependListener(k, f) : d.appendListener(k, f); }
 	static bool removeListener(D & d, int k, const Handle & h) { return d.removeListener(k, h); }
 	// temporaries only: with lvalues a heterogeneous dispatcher forwards references, so the caller's own objects would be what the filters modify
+	static void dispatch(D & d, int k, int a, int pv, bool, bool) { d.dispatch(k, a + 0, Payload(4000, pv)); }
+};
+
+// A recorded, unrepaired defect (known_findings.txt): with prototypes <void(long, Payload), void(int, Payload)> and an int argument the
+// listeners of the FIRST prototype run (int converts to long), but MixinHeterFilter runs the filters of the SECOND prototype (it looks
+// for the filter prototype whose reference parameters bind to the argument lvalues). Filters with even ids take long &, those with odd
+// ids int &; the dispatch must run the even ones - the filters of the prototype whose listeners run - and only those.
+struct FilterLongFn : Tracked<seq::T_FN, false>
+{
+	explicit FilterLongFn(int id) : Tracked<seq::T_FN, false>(id) {}
+	bool operator() (long & a, Payload & p) const
+	{
+		faultPoint(F_CALL);
+		FaultOff off;
+		this->alive("filter invoked"); p.alive("filter argument");
+		int ai = (int)a;
+		const bool r = g_sink->filter(this->id, ai, p.val);
+		a = ai;
+		return r;
+	}
+};
+struct CfgHeterConv
+{
+	typedef eventpp::HeterEventDispatcher<int, eventpp::HeterTuple<void (long, Payload), void (int, Payload)>, Pol3> D;
+	typedef D::Handle Handle; typedef D::FilterHandle FHandle;
+	enum { queue = 0, mixes = 0, conv = 1 };
+	static FHandle addFilter(D & d, const FilterFn & f) { if(f.id % 2 == 0) return d.appendFilter(FilterLongFn(f.id)); return d.appendFilter(f); }
+	static bool removeFilter(D & d, const FHandle & h) { return d.removeFilter(h); }
+	static Handle addListener(D & d, int k, int how, const ListenerFn & f) { return how ? d.prependListener(k, f) : d.appendListener(k, f); }
+	static bool removeListener(D & d, int k, const Handle & h) { return d.removeListener(k, h); }
 	static void dispatch(D & d, int k, int a, int pv, bool, bool) { d.dispatch(k, a + 0, Payload(4000, pv)); }
 };
 
@@ -250,6 +280,8 @@ struct FilterInterp : Sink
 		if(a != curA || pval != curP) viol.raise("argument-mismatch", "listener " + std::to_string(id) + " received (" + std::to_string(a) + "," + std::to_string(pval) + ") but the filters left (" + std::to_string(curA) + "," + std::to_string(curP) + ")");
 	}
 	bool condition(int, int, int) override { return true; }
+	// the conversion variant documents ONE recorded defect: whatever shape it takes in a given history, it is reported under one class
+	void relabel() { if(C::conv && viol.set && (viol.cls == "unexpected-filter" || viol.cls == "filter-skipped" || viol.cls == "listener-before-filters")) viol.cls = "heter-filters-of-another-prototype"; }
 
 	void doRemoveFilter(int slot)
 	{
@@ -319,7 +351,7 @@ struct FilterInterp : Sink
 			const bool queued = op.k == O_QDISPATCH && C::queue;
 			++counters.dispatches; if(queued) ++counters.queuedDispatches;
 			curA = op.a; curP = op.b; curKey = k;
-			fsnap.clear(); for(size_t i = 0; i < filters.size(); ++i) fsnap.push_back(filters[i].id);
+			fsnap.clear(); for(size_t i = 0; i < filters.size(); ++i) if(!C::conv || filters[i].id % 2 == 0) fsnap.push_back(filters[i].id);
 			lsnap = listeners[k];
 			fpos = 0; lpos = 0; blocked = false; stage = 0; inDispatch = true;
 			try { FaultArm arm; C::dispatch(*disp, k, op.a, op.b, (op.c & 1) != 0, queued); }
@@ -408,6 +440,7 @@ struct ContInterp : Sink
 	bool filter(int, int &, int &) override { return true; }
 	bool mix(int, int, int) override { return true; }
 	bool condition(int, int, int) override { return true; }
+	void relabel() {}
 	void listener(int id, long a, long pval) override
 	{
 		++counters.listenerCalls;
@@ -521,6 +554,7 @@ struct DerivedListenerFn : Tracked<seq::T_FN, false>
 
 struct WrapInterp : Sink
 {
+	void relabel() {}
 	typedef eventpp::CallbackList<void (int, const Payload &)> L;
 	typedef eventpp::CallbackList<void (std::shared_ptr<BaseEv>)> LS;
 	const Plan & plan;
@@ -669,6 +703,7 @@ void runInterp(const Plan & plan, RunOut & out)
 			I * in = new I(plan);
 			g_sink = in;
 			in->execute(faults);
+			in->relabel();
 			if(in->viol.set) out.fail(in->viol.cls, in->viol.detail);
 			if(passed) *passed = in->passedPerOp;
 			if(lh) *lh = in->logHash;
@@ -712,6 +747,8 @@ void runVariant3(const Plan & p, RunOut & o) { runInterp<FilterInterp<CfgHeter> 
 void runVariant4(const Plan & p, RunOut & o) { runInterp<ContInterp>(p, o); }
 #elif SEQ_VARIANT == 5
 void runVariant5(const Plan & p, RunOut & o) { runInterp<WrapInterp>(p, o); }
+#elif SEQ_VARIANT == 6
+void runVariant6(const Plan & p, RunOut & o) { runInterp<FilterInterp<CfgHeterConv> >(p, o); }
 #endif
 
 } // namespace sf
@@ -723,6 +760,7 @@ Sink * g_sink = nullptr;
 Counters counters;
 void runVariant0(const Plan &, RunOut &); void runVariant1(const Plan &, RunOut &); void runVariant2(const Plan &, RunOut &);
 void runVariant3(const Plan &, RunOut &); void runVariant4(const Plan &, RunOut &); void runVariant5(const Plan &, RunOut &);
+void runVariant6(const Plan &, RunOut &);
 }
 
 namespace engine {
@@ -737,7 +775,8 @@ void generate(uint64_t seed, Plan & plan)
 	using namespace sf;
 	Rng rng(seed);
 	plan.setSchedSeed(rng.next());
-	const int variant = mode == "c10" ? (int)rng.below(4) : (int)rng.below(V_COUNT);
+	// mode c12k: only the conversion variant of the heterogeneous dispatcher (variant 6), which documents a recorded, unrepaired defect
+	const int variant = mode == "c12k" ? 6 : mode == "c10" ? (int)rng.below(4) : (int)rng.below(V_COUNT);
 	plan.user(U_VARIANT) = variant;
 	plan.tasks.assign(1, OpList());
 	OpList & ops = plan.tasks[0];
@@ -749,7 +788,7 @@ void generate(uint64_t seed, Plan & plan)
 		const int k = (int)rng.below(variant == 4 ? NKEY + 1 : NKEY);
 		int slot = 0;
 		if(!known.empty()) slot = known[rng.below((uint32_t)known.size())];
-		if(variant <= 3) {
+		if(variant <= 3 || variant == 6) {
 			if(r < 20 && nextId < MAXSLOT - 2) {
 				const int pattern = rng.chance(2, 3) ? 255 : (int)rng.below(256);
 				const int delta = rng.chance(1, 2) ? 1 + (int)rng.below(4) : 0;
@@ -782,10 +821,10 @@ void execute(const Plan & plan, RunOut & out)
 	const int v = plan.user(sf::U_VARIANT);
 	switch(v) {
 	case 0: sf::runVariant0(plan, out); break; case 1: sf::runVariant1(plan, out); break; case 2: sf::runVariant2(plan, out); break;
-	case 3: sf::runVariant3(plan, out); break; case 4: sf::runVariant4(plan, out); break; default: sf::runVariant5(plan, out); break;
+	case 3: sf::runVariant3(plan, out); break; case 4: sf::runVariant4(plan, out); break; case 6: sf::runVariant6(plan, out); break; default: sf::runVariant5(plan, out); break;
 	}
 	++sf::counters.plans;
-	if(v >= 0 && v < sf::V_COUNT) ++sf::counters.perVariant[v];
+	if(v >= 0 && v <= sf::V_COUNT) ++sf::counters.perVariant[v];
 	bool focus = false;
 	if(!plan.tasks.empty()) for(size_t i = 0; i < plan.tasks[0].size(); ++i) if(plan.tasks[0][i].k == sf::O_DISPATCH || plan.tasks[0][i].k == sf::O_QDISPATCH) focus = true;
 	out.nontrivial = focus;
@@ -794,11 +833,12 @@ void execute(const Plan & plan, RunOut & out)
 std::string describe(const Plan & plan)
 {
 	static const char * vn[] = { "EventDispatcher+MixinFilter", "EventDispatcher+MixinList<MixA,MixinFilter,MixB>", "EventQueue+MixinFilter", "HeterEventDispatcher+MixinHeterFilter",
-		"canContinueInvoking on CallbackList/EventDispatcher", "conditionalFunctor/argumentAdapter listeners" };
+		"canContinueInvoking on CallbackList/EventDispatcher", "conditionalFunctor/argumentAdapter listeners",
+		"HeterEventDispatcher<{void(long,Payload), void(int,Payload)}>+MixinHeterFilter, int arguments" };
 	static const char * names[] = { "?", "addFilter", "removeFilter", "addListener", "removeListener", "dispatch", "queuedDispatch", "setMixinVerdict", "continueWithCopy", "continueWithCopyAssigned" };
 	std::ostringstream o;
 	const int v = plan.user(sf::U_VARIANT);
-	o << (v >= 0 && v < sf::V_COUNT ? vn[v] : "?") << " :";
+	o << (v >= 0 && v <= sf::V_COUNT ? vn[v] : "?") << " :";
 	if(!plan.tasks.empty()) for(size_t i = 0; i < plan.tasks[0].size(); ++i) {
 		const Op & op = plan.tasks[0][i];
 		o << " " << (op.k >= 1 && op.k < sf::O_KINDS ? names[op.k] : "?");
